@@ -27,7 +27,12 @@ func main() {
 	out := flag.String("out", "", "result stream file")
 	plan := flag.Bool("plan", false, "print the build plan and exit")
 	one := flag.Int("one", -1, "run a single case (replay)")
+	sub := flag.String("sub", "", "run a fresh-process scenario and print its result")
 	flag.Parse()
+	if *sub != "" {
+		checks.RunSub(*sub)
+		return
+	}
 
 	ck := checks.Registry[*check]
 	if ck == nil {
